@@ -186,7 +186,9 @@ def amounts_f64(rng, n_random=4):
            ("short-dec", (rng.below(99999) + 1) / 100.0), ("tenth", 0.1), ("third", 1.0 / 3.0),
            ("pow2", 2.0 ** (rng.below(40) - 20)), ("pow10", 10.0 ** (rng.below(20) - 10)),
            ("tiny", 1e-300 * (rng.below(9) + 1)), ("huge", 1e300 / (rng.below(9) + 1)),
-           ("subnormal", f64_from_bits(rng.below(1 << 40) + 1))]
+           ("subnormal", f64_from_bits(rng.below(1 << 40) + 1)),
+           # the two neighbours of one ("equal to one up to EPSILON" holds for exactly one value besides 1.0)
+           ("one-prev", 0.9999999999999999), ("one-next", 1.0000000000000002)]
     # whole numbers at the boundaries of the integer types (a detour through i32 / i64 / u64 saturates or wraps there)
     b = [2.0 ** 31, 2.0 ** 32, 2.0 ** 53, 2.0 ** 63, 2.0 ** 64][rng.below(5)]
     out.append(("int-boundary", [b, -b, b + 2 * (b // 2 ** 52 or 1), -(b * (1 + 2.0 ** -52)), b - 1 if b < 2 ** 53 else b * (1 - 2.0 ** -53)][rng.below(5)]))
